@@ -38,6 +38,13 @@ Theorem C11_lexer_total : forall ts : list tok, shell_lex ts <> LexedOutOfFuel.
 Proof. exact shell_lex_total. Qed.
 Print Assumptions C11_lexer_total.
 
+(* On tokens the real tokenizer can re-tokenize (no WkNil) it does not panic either:
+   ShellLexer.Lex always hands a terminal string to the parser. *)
+Theorem C11_lexer_defined : forall ts : list tok,
+  (forall t, In t ts -> t_kind t <> WkNil) -> exists out, shell_lex ts = Lexed out.
+Proof. exact shell_lex_defined. Qed.
+Print Assumptions C11_lexer_defined.
+
 (* ---- the unguarded statement is false of the faithful model ---- *)
 
 (* "Every tree that is the POSIX reading of its own text (faithful), with
